@@ -479,6 +479,9 @@ func (e *Engine) rangeStart(st *St, x *ssa.Range) Value {
 		if e.MapOrder != nil {
 			it.Perm = e.MapOrder(len(mc.E))
 		}
+		if e.Cfg.SymbolicMapOrder && e.booting == 0 && len(mc.E) >= 2 {
+			it.Map = e.permutedEntries(st, mc)
+		}
 		return it
 	}
 	e.unsupported("range over " + x.X.Type().String())
@@ -572,3 +575,51 @@ func (e *Engine) FindMethod(pkgPath, typeName, method string, ptr bool) *ssa.Fun
 }
 
 func (e *Engine) FindFunc(pkgPath, name string) *ssa.Function { return e.findFunc(pkgPath, name) }
+
+// permutedEntries models Go's unspecified map iteration order: the visiting order is an
+// arbitrary permutation selected by a fresh symbolic index (one per range statement executed).
+func (e *Engine) permutedEntries(st *St, mc *MapC) *MapC {
+	n := len(mc.E)
+	if n > 4 {
+		e.unsupported("symbolic map order over more than 4 entries")
+	}
+	for _, en := range mc.E {
+		if !en.P.IsTrue() {
+			e.unsupported("symbolic map order over a map with symbolic presence")
+		}
+	}
+	var perms [][]int
+	var gen func(cur []int, used []bool)
+	gen = func(cur []int, used []bool) {
+		if len(cur) == n {
+			perms = append(perms, append([]int{}, cur...))
+			return
+		}
+		for i := 0; i < n; i++ {
+			if !used[i] {
+				used[i] = true
+				gen(append(cur, i), used)
+				used[i] = false
+			}
+		}
+	}
+	gen(nil, make([]bool, n))
+	p := e.Fresh("maporder", 64, true)
+	st.pc = e.S.And(st.pc, e.S.And(e.S.SLe(e.c64(0), p), e.S.SLt(p, e.c64(int64(len(perms))))))
+	out := &MapC{E: make([]MapEntry, n)}
+	for i := 0; i < n; i++ {
+		var k, v Value
+		for c := len(perms) - 1; c >= 0; c-- {
+			en := mc.E[perms[c][i]]
+			if k == nil {
+				k, v = en.K, en.V
+				continue
+			}
+			cond := e.S.Eq(p, e.c64(int64(c)))
+			k = e.Merge(cond, en.K, k)
+			v = e.Merge(cond, en.V, v)
+		}
+		out.E[i] = MapEntry{K: k, V: v, P: e.S.True}
+	}
+	return out
+}
